@@ -97,8 +97,18 @@ def jobs(tier):
                             "errcodes": 2,
                         }
                     )
+    # the producer composed with the real client, connections and codec against simulated brokers
+    for acks in (1, 0, -1):
+        for batch in (False, True):
+            if q and acks == -1:
+                continue
+            out.append({"kind": "e2e", "acks": acks, "batch": batch, "codec": CODEC_GZIP if batch else CODEC_NONE, "third": batch})
     return out
 
 
 def scenario(job):
+    if job.get("kind") == "e2e":
+        from vlib.sim.producer_e2e import make_scenario as e2e
+
+        return e2e(job)
     return make_scenario(job, {"ack"})
